@@ -180,7 +180,7 @@ def check(ctx):
     if not ctx.quick:
         configs += [([W1, W2, WR], 0), ([W2, W1, P, R], 1)]
     k = 1 if ctx.quick else 2
-    cap = ctx.n(250, 6000)
+    cap = ctx.n(250, 2000)
     scopes = []
     for progs, kind in configs:
         res, seen = bounded_preemption_schedules(progs, kind, k, cap, ctx.rng)
@@ -193,7 +193,7 @@ def check(ctx):
                 break
     rng = ctx.rng
     import pC12
-    for i in range(ctx.n(150, 2500)):
+    for i in range(ctx.n(150, 1500)):
         progs = pC12.gen_progs(rng, rng.choice([2, 3, 3, 4, 5]))
         stick = rng.choice([0.0, 0.5, 0.8, 0.95])
 
